@@ -37,29 +37,15 @@ def main():
             return 3
         env = dict(os.environ, VERIF_REPO=scratch)
         for pid in a.ids:
-            ev = os.path.join(HERE, "evidence", f"{pid}.json")
-            saved = None
-            if os.path.exists(ev):
-                saved = os.path.join(keep, f"{pid}.json")
-                shutil.copy(ev, saved)
-            before = set(os.listdir(os.path.join(HERE, "replays"))) \
-                if os.path.isdir(os.path.join(HERE, "replays")) else set()
+            # evidence and replay files of this run go to the scratch dir, never to /verif
             r = subprocess.run([os.path.join(HERE, "check"), pid, "--tier", a.tier, "--seed", a.seed,
-                                "--jobs", a.jobs], env=env, capture_output=True, text=True, cwd=HERE)
+                                "--jobs", a.jobs], env=dict(env, VERIF_OUT_DIR=keep),
+                               capture_output=True, text=True, cwd=HERE)
             lines = [l for l in r.stdout.splitlines() if "condarc" not in l]
             print(f"== {pid}: exit {r.returncode}")
             for l in lines[-6:]:
                 print("   " + l[:400])
             rc_all[pid] = r.returncode
-            # replay the minimised file against the mutant too (fresh interpreter)
-            after = set(os.listdir(os.path.join(HERE, "replays")))
-            for f in sorted(after - before):
-                mv = os.path.join(keep, f)
-                shutil.move(os.path.join(HERE, "replays", f), mv)
-            if saved:
-                shutil.copy(saved, ev)
-            elif os.path.exists(ev):
-                os.remove(ev)
     finally:
         shutil.rmtree(scratch, ignore_errors=True)
         shutil.rmtree(keep, ignore_errors=True)
